@@ -16,6 +16,17 @@ import (
 
 var allProps = []string{"C01", "C06", "C08", "C09", "C10"}
 
+func hasDupNames(d qframe.VerifFrame) bool {
+	seen := map[string]bool{}
+	for _, c := range d.Columns {
+		if seen[c.Name] {
+			return true
+		}
+		seen[c.Name] = true
+	}
+	return false
+}
+
 func safeDigest(qf qframe.QFrame) (d string) {
 	if p, v := hlib.Recover(func() { d = digest(qf) }); p {
 		return fmt.Sprintf("PANIC while observing: %v", v)
@@ -42,6 +53,26 @@ func runOp(s *hlib.Suite, qf qframe.QFrame, desc map[string]interface{}, op func
 		}
 	} else if out.Len() != -1 {
 		s.Fail(id, "a frame with Err set reports Len() != -1", desc, "")
+	}
+	// all observers must describe the result alike (C09)
+	if out.Err == nil {
+		var msg string
+		if p, v := hlib.Recover(func() { msg = observersDisagree(out) }); p {
+			msg = fmt.Sprintf("an observer panicked: %v", v)
+		}
+		if msg != "" {
+			d9 := map[string]interface{}{}
+			for k, v := range desc {
+				d9[k] = v
+			}
+			d9["props"] = []string{"C09"}
+			class := ""
+			if hasDupNames(od) {
+				class = "duplicate-column-names"
+			}
+			s.Fail(id, "observers disagree on the result of "+fmt.Sprint(desc["op"])+": "+msg, d9, class)
+		}
+		s.Count("observers-cross-checked")
 	}
 	// siblings: further operations on the SAME receiver (each adding or replacing a column, or deriving a new
 	// index) must leave the result obtained above exactly as it was observed
@@ -640,6 +671,11 @@ func applyCase(r *hlib.Rng, s *hlib.Suite) {
 	case 0: // FilteredApply
 		cl := genClause(r, cols, 2, malformed && r.Chance(1, 2))
 		desc := map[string]interface{}{"op": "filteredapply", "clause": cl.String(), "instructions": descs, "derivation": hist, "props": []string{"C01", "C06", "C10", "C02"}}
+		for _, dsc := range descs {
+			if strings.Contains(dsc, " := col ") {
+				desc["class"] = "filteredapply-columnname-copy"
+			}
+		}
 		if od, ok := runOp(s, qf, desc, func() qframe.QFrame { return qf.FilteredApply(cl.goClause(), goI...) }); ok {
 			dumps = []qframe.VerifFrame{in, od}
 			cl.complete(in)
@@ -847,10 +883,17 @@ func newCase(r *hlib.Rng, s *hlib.Suite) {
 	base := lens[r.Intn(len(lens))]
 	// a malformed case carries exactly ONE fault class, so that no other error can mask it:
 	// 0 illegal name, 1 one column of another length, 2 negative constant count, 3 unsupported data type,
-	// 4 enum declaration for a missing column, 5 bad ColumnOrder, 6 several faults at once (the old mix)
+	// 4 enum declaration for a missing column, 5 bad ColumnOrder, 6 several faults at once (the old mix),
+	// 7 a name repeated in ColumnOrder (of the right length), 8 an enum declaration listing a value twice
 	fault := -1
 	if malformed {
-		fault = r.Intn(7)
+		fault = r.Intn(9)
+		if fault == 7 && k < 2 {
+			k = 2 + r.Intn(3)
+		}
+		if fault == 8 && k < 1 {
+			k = 1 + r.Intn(3)
+		}
 		if fault == 1 && k < 2 {
 			k = 2 + r.Intn(3)
 		}
@@ -885,6 +928,9 @@ func newCase(r *hlib.Rng, s *hlib.Suite) {
 		var d interface{}
 		var c string
 		kind := r.Intn(11)
+		if fault == 8 && i == 0 {
+			kind = 3
+		}
 		if fault == 2 && i == 0 {
 			kind = []int{6, 9}[r.Intn(2)]
 		}
@@ -957,7 +1003,12 @@ func newCase(r *hlib.Rng, s *hlib.Suite) {
 		descCols = append(descCols, fmt.Sprintf("%s:%T", name, d))
 		// enum declaration
 		isStr := kind == 3 || kind == 4 || kind == 5 || kind == 9
-		if (isStr && r.Chance(1, 2)) || (fault == 6 && r.Chance(1, 10)) {
+		if fault == 8 && i == 0 {
+			// declared values cover the data, one of them listed twice
+			vals := append([]string{}, strPool...)
+			vals = append(vals, vals[r.Intn(len(vals))])
+			enums[name] = vals
+		} else if (isStr && r.Chance(1, 2)) || (fault == 6 && r.Chance(1, 10)) {
 			switch r.Intn(3) {
 			case 0:
 				enums[name] = nil
@@ -974,7 +1025,7 @@ func newCase(r *hlib.Rng, s *hlib.Suite) {
 	// column order
 	var order []string
 	oc := r.Intn(4)
-	if fault == 5 {
+	if fault == 5 || fault == 7 {
 		oc = 1
 	}
 	switch oc {
@@ -983,6 +1034,9 @@ func newCase(r *hlib.Rng, s *hlib.Suite) {
 		p := r.Perm(len(names))
 		for _, i := range p {
 			order = append(order, names[i])
+		}
+		if fault == 7 && len(order) > 1 {
+			order[r.Intn(len(order)-1)+1] = order[0]
 		}
 		if (fault == 5 || fault == 6) && len(order) > 0 {
 			switch r.Intn(4) {
@@ -1119,4 +1173,59 @@ func enumBoundaryCase(r *hlib.Rng, s *hlib.Suite) {
 	}
 	s.Count("enum-boundary-filter")
 	s.Add("FFilter "+coqFrame(od)+" "+matcherTable(cl, od)+" "+cl.coq()+" "+coqFrame(qframe.VerifDump(fo)), desc2, true)
+}
+
+// ---------------------------------------------------------------- frames with a repeated column name
+
+// dupNamesCase: Select accepts a repeated name; the resulting frame has two columns called alike. Such frames are
+// reachable through the public API without any error, so every property quantifying over "any frame however
+// derived" speaks about them: an Apply that overwrites the name, then all observers (in runOp), or an Eval.
+func dupNamesCase(r *hlib.Rng, s *hlib.Suite) {
+	qf, cols := genFrame(r, []string{"int"})
+	qf, _ = deriveIndex(r, qf, cols, s)
+	var ic genCol
+	for _, c := range cols {
+		if c.kind == "int" {
+			ic = c
+		}
+	}
+	names := []string{ic.name, ic.name}
+	for _, c := range cols {
+		if c.name != ic.name && r.Bool() {
+			names = append(names, c.name)
+		}
+	}
+	h := qf.Select(names...)
+	if h.Err != nil {
+		return
+	}
+	rec := []string{}
+	fn := func(x int) int { y := 10*x + 1; rec = append(rec, "("+cInt(x)+", "+cInt(y)+")"); return y }
+	in := qframe.VerifDump(h)
+	desc := map[string]interface{}{"op": "apply", "instructions": []string{ic.name + " := fn1(" + ic.name + ")"}, "derivation": []string{"select(" + strings.Join(names, ",") + ")"},
+		"props": allProps, "class": "duplicate-column-names"}
+	var g qframe.QFrame
+	od, ok := runOp(s, h, desc, func() qframe.QFrame {
+		g = h.Apply(qframe.Instruction{Fn: fn, DstCol: ic.name, SrcCol1: ic.name})
+		return g
+	})
+	if !ok {
+		return
+	}
+	s.Count("duplicate-names-apply")
+	instr := "(mkInstr (F1 TInt TInt " + hlib.List(dedup(rec)) + ") " + hlib.Str(ic.name) + " " + hlib.Str(ic.name) + " " + hlib.Str("") + ")"
+	s.Add(fmt.Sprintf("FApply %s [] %s %s", coqFrame(in), hlib.List([]string{instr}), coqFrame(od)), desc, h.Len() > 0)
+	if g.Err != nil || r.Bool() {
+		return
+	}
+	// Eval of a constant into a new column must leave both columns of that name alone
+	in2 := qframe.VerifDump(g)
+	desc2 := map[string]interface{}{"op": "eval", "dst": "NEWCOL", "expr": "5", "derivation": []string{"select(" + strings.Join(names, ",") + ")", "apply " + ic.name + " := fn1(" + ic.name + ")"},
+		"props": []string{"C07", "C10", "C01"}, "class": "duplicate-column-names"}
+	od2, ok := runOp(s, g, desc2, func() qframe.QFrame { return g.Eval("NEWCOL", qframe.Val(5)) })
+	if !ok {
+		return
+	}
+	s.Count("duplicate-names-eval")
+	s.Add(fmt.Sprintf("FEval %s [] [] %s (EConst %s) %s", coqFrame(in2), hlib.Str("NEWCOL"), cInt(5), coqFrame(od2)), desc2, g.Len() > 0)
 }
